@@ -192,7 +192,8 @@ class BaseResource(Generic[T]):
         :param get_event: ``Get`` event that was triggered or :py:const:`None`
         """
         triggered = list(takewhile(self._do_put, self.put_queue))
-        self.put_queue = self.put_queue[len(triggered):]
+        # delete in-place to preserve the type (and thus order) of the queue
+        del self.put_queue[:len(triggered)]
 
     def _trigger_get(self, put_event: Put):
         """
@@ -206,7 +207,7 @@ class BaseResource(Generic[T]):
         :param put_event: ``Get`` event that was triggered or :py:const:`None`
         """
         triggered = list(takewhile(self._do_get, self.get_queue))
-        self.get_queue = self.get_queue[len(triggered):]
+        del self.get_queue[:len(triggered)]
 
     # NOTE: Per the SimPy spec, these are **PUBLIC**
     def _do_get(self, get_event: Get) -> bool:
